@@ -294,6 +294,21 @@ def check_arrays(mod, col: Collector, tier: str):
             setattr(src, f, good)
             m = Mn()
             col.attempt(m, f"{f}=bound({f})", lambda: setattr(m, f, getattr(src, f)), "in", lambda: getattr(m, f)[:], [conv(x) for x in good], cmpl)
+            # ... from a differently named field of the same kind and length: of another message, of the same message
+            g2 = [conv(x) for x in (good[::-1] if len(set(good)) > 1 else good)]
+            src2 = Mn()
+            setattr(src2, f, good)
+            setattr(src2, f"z_{t}", g2)
+            m = Mn()
+            setattr(m, f"z_{t}", prefill)
+            col.attempt(m, f"{f}=bound(z_{t} of another message)", lambda: setattr(m, f, getattr(src2, f"z_{t}")), "in", lambda: getattr(m, f)[:], g2, cmpl)
+            m2 = Mn()
+            setattr(m2, f, prefill)
+            setattr(m2, f"z_{t}", g2)
+            col.attempt(m2, f"{f}=bound(z_{t} of the same message)", lambda: setattr(m2, f, getattr(m2, f"z_{t}")), "in", lambda: getattr(m2, f)[:], g2, cmpl)
+            m3 = Mn()
+            setattr(m3, f, good)
+            col.attempt(m3, f"z_{t}=bound({f} of the same message)", lambda: setattr(m3, f"z_{t}", getattr(m3, f)), "in", lambda: getattr(m3, f"z_{t}")[:], [conv(x) for x in good], cmpl)
             other_t = "int16" if t != "int16" else "int32"
             m = Mn()
             col.attempt(m, f"{f}=bound(a_{other_t})", lambda: setattr(m, f, getattr(src, f"a_{other_t}")), "out")
@@ -411,6 +426,22 @@ def check_arrays(mod, col: Collector, tier: str):
         src.sa = gs
         m = Mn()
         col.attempt(m, "sa=bound(sa)", lambda: setattr(m, "sa", src.sa), "in", lambda: [x.a for x in m.sa], [g.a for g in gs])
+        # ... struct and byte arrays copied between differently named fields
+        src = Mn()
+        src.sz = gs
+        m = Mn()
+        col.attempt(m, "sa=bound(sz of another message)", lambda: setattr(m, "sa", src.sz), "in", lambda: [x.a for x in m.sa], [g.a for g in gs])
+        m2 = Mn()
+        m2.sz = gs
+        col.attempt(m2, "sa=bound(sz of the same message)", lambda: setattr(m2, "sa", m2.sz), "in", lambda: [x.a for x in m2.sa], [g.a for g in gs])
+        src = Mn()
+        src.bz = [7, 6, 5, 4][:n]
+        src.ba = [1] * n
+        m = Mn()
+        col.attempt(m, "ba=bound(bz of another message)", lambda: setattr(m, "ba", src.bz), "in", lambda: bytes(m.ba[:]), bytes([7, 6, 5, 4][:n]))
+        m2 = Mn()
+        m2.bz = [7, 6, 5, 4][:n]
+        col.attempt(m2, "ba=bound(bz of the same message)", lambda: setattr(m2, "ba", m2.bz), "in", lambda: bytes(m2.ba[:]), bytes([7, 6, 5, 4][:n]))
 
 
 # ---- disable blocks ------------------------------------------------------------------------------------
